@@ -89,6 +89,16 @@ fn cases_for(open: &Node, coins: &[(CoinID, u128, u64)], difficulties: &[(u32, b
             for e in amounts {
                 out.push(Case { label: format!("{} erg={}(max {})", base, e, max_erg), tx: mint_tx(*coin, *value, *d, &pb, e, false), valid: e <= max_erg && e <= coin_max });
             }
+            // the exemption from the balance rule is for the ERG a mint creates, nothing else: the same valid proof with one unit of MEL
+            // more than it spends, and with a SYM output out of nothing (mutation scan: `currency == Erg` -> `!= Erg` survived)
+            {
+                let mut t = mint_tx(*coin, *value, *d, &pb, 0, false);
+                t.outputs[0].value = melstructs::CoinValue(*value + 1);
+                out.push(Case { label: format!("{} valid proof, MEL output one unit above the input", base), tx: t, valid: false });
+                let mut t = mint_tx(*coin, *value, *d, &pb, 0, false);
+                t.outputs.push(out_t(5, Denom::Sym));
+                out.push(Case { label: format!("{} valid proof, a SYM output out of nothing", base), tx: t, valid: false });
+            }
             // the bound applies to the *sum* of ERG outputs
             out.push(Case { label: format!("{} erg split over two outputs = max+1", base), tx: mint_tx(*coin, *value, *d, &pb, max_erg, true), valid: false });
             // claimed difficulty +-1
